@@ -3,7 +3,10 @@
                   with k capturing backends;
      forwarded  : the same head with HttpForwarderHandlerV2 as sink -> real ingestion server ->
                   TagHandler -> BackendHandler with k capturing backends;
-     ingest     : protobuf events posted to the real ingestion server -> the same tail.
+     ingest     : protobuf events posted to the real ingestion server -> the same tail;
+     server     : the REAL statsd.Server (RunWithCustomSocket: UDP socket, HTTP ingestion server from the
+                  viper configuration, default tags, scripted cache as CachedInstances), the same kind of
+                  events over both entry points (no trace: the stages are wired inside the server).
    [check_case] (1) computes with the composed model (Model/Events.v part A) the event every
    backend must receive for every input line / message and compares, per backend, the multiset
    of received events field by field (tags as a multiset; a stamped date must lie in the wall
@@ -18,7 +21,7 @@ From GS Require Model.Wire.
 
 Definition PbE := Wire.MkPbE.
 
-Inductive mode := MStandalone | MForwarded | MIngest.
+Inductive mode := MStandalone | MForwarded | MIngest | MServer.
 
 (* observable actions, in the order the harness saw them (one mutex-protected log) *)
 Inductive obs :=
@@ -70,7 +73,17 @@ Definition expected (c : c19case) : option (list delivery) :=
                       | _ => standalone no_pf (k_ns c) th stamp ip io sl.2
                       end
                   | None => Crash
-                  end) (k_lines c))
+                  end) (k_lines c)
+                ++ match m with
+                   | MServer =>   (* the same server's cloud and tag stage, keyed on the message's Hostname *)
+                       map (λ p, ingested th
+                                   (match List.find (λ s : str * option instance, str_eqb s.1 (Wire.pe_hostname p))
+                                                    (k_senders c) with
+                                    | Some (_, io) => io
+                                    | None => None
+                                    end) p) (k_msgs c)
+                   | _ => []
+                   end)
       end
   | _, _ => None
   end.
